@@ -24,6 +24,7 @@ type pipeStream struct {
 	mu      sync.Mutex
 	segs    [][]byte
 	size    int
+	limit   int  // 0: pipeBufferBytes
 	wclosed bool // the writing side closed: EOF after the queue drains
 	rclosed bool // the reading side closed: writes fail
 	change  chan struct{}
@@ -108,6 +109,13 @@ func newBufPipe() (net.Conn, net.Conn) {
 	return a, b
 }
 
+// newBufPipeLimited: as newBufPipe, but the direction b -> a buffers at most bToA octets (a peer with small socket buffers)
+func newBufPipeLimited(bToA int) (net.Conn, net.Conn) {
+	a, b := newBufPipe()
+	b.(*bufPipeEnd).wr.limit = bToA
+	return a, b
+}
+
 func (p *bufPipeEnd) Read(b []byte) (int, error) {
 	s := p.rd
 	for {
@@ -172,7 +180,11 @@ func (p *bufPipeEnd) Write(b []byte) (int, error) {
 			s.mu.Unlock()
 			return total, nil
 		}
-		space := pipeBufferBytes - s.size
+		lim := pipeBufferBytes
+		if s.limit > 0 {
+			lim = s.limit
+		}
+		space := lim - s.size
 		if space > 0 {
 			n := len(b)
 			if n > space {
